@@ -37,6 +37,11 @@ impl IntoU128 for u128 { open spec fn as_nat(&self) -> nat { *self as nat } }
 impl IntoU128 for u64 { open spec fn as_nat(&self) -> nat { *self as nat } }
 impl IntoU128 for Uint128 { open spec fn as_nat(&self) -> nat { self.u as nat } }
 
+impl Coin {
+    // Coin::new(amount: impl Into<Uint128>, denom: impl Into<String>)  (cosmwasm-std coin.rs)   ASSUMED
+    #[verifier::external_body]
+    pub fn new<A: IntoU128, D: IntoStr>(amount: A, denom: D) -> (r: Coin) ensures r.amount.u == amount.as_nat(), r.denom@ == denom.str_view() { unimplemented!() }
+}
 impl vstd::std_specs::ops::MulSpecImpl<Decimal> for Decimal {
     open spec fn obeys_mul_spec() -> bool { false }
     open spec fn mul_req(self, rhs: Decimal) -> bool { true }
